@@ -20,9 +20,9 @@ from fractions import Fraction
 import numpy as np
 
 PROP = 'C02'
-TARGETS = ['T8', 'T8b', 'T8c', 'T8d', 'T8e', 'T8f', 'T8g', 'T8h', 'T8j', 'T8k', 'T8m', 'T8n', 'T8p', 'T8q', 'T8s', 'T17p']
+TARGETS = ['T8', 'T8b', 'T8c', 'T8d', 'T8e', 'T8f', 'T8g', 'T8h', 'T8j', 'T8k', 'T8m', 'T8n', 'T8p', 'T8q', 'T8r', 'T8s', 'T17p']
 LEAN_MODULES = ['HdVerif.Props.C02']
-MODEL_MODULES = ['HdVerif.Model.SegRead', 'HdVerif.Model.SegReadSpec', 'HdVerif.Model.SegMeta', 'HdVerif.Model.Effects']
+MODEL_MODULES = ['HdVerif.Model.SegRead', 'HdVerif.Model.SegReadSpec', 'HdVerif.Model.SegReadState', 'HdVerif.Model.SegMeta', 'HdVerif.Model.Effects']
 NAMESPACE = 'HdVerif.C02'
 DRIVER = 'Drivers/C02.lean'
 RULE = ('segmentation objects built with the real constructor from (source kind, type, segment numbers, mask, '
@@ -1398,6 +1398,7 @@ def _object_cases(ctx, d, reqs, pending):
     snap = bytes(seg.PixelData) if d['via'] != 'lazy' and 'PixelData' in seg else None
     cache = None
     results = {}
+    live = []
     for step, rq, repeat_of in steps:
         if touch_at is not None and step == touch_at and d['via'] != 'lazy':
             st0, pa = _fetch(lambda: np.array(seg.pixel_array, copy=True))
@@ -1425,6 +1426,16 @@ def _object_cases(ctx, d, reqs, pending):
             continue
         st, val, model_keys, rq2 = res
         results[step] = (st, np.array(val, copy=True) if st == 'ok' else _err_kind(val))
+        # arrays the object handed out are the caller's: a later read must not change an earlier result
+        for (step0, ref, snap0) in live:
+            if ref.shape != snap0.shape or not np.array_equal(ref, snap0):
+                ctx.fail({'obj': d, 'req': rq2, 'history': True, 'earlier_step': step0},
+                         'an array returned by an earlier read changed when the object was read again',
+                         site=f"{rq['entry']}/{d['type']}/result-aliased")
+                live = [x for x in live if x[0] != step0]
+        if st == 'ok' and isinstance(val, np.ndarray):
+            live.append((step, val, results[step][1]))
+            live = live[-5:]
         if repeat_of is not None and repeat_of in results:
             a, b = results[repeat_of], results[step]
             same = a[0] == b[0] and (a[1] == b[1] if a[0] != 'ok' else
